@@ -8,7 +8,8 @@ What is a site
     filter dict str.join deque chain …` – everything that is not in ORDER_BLIND), where E has kind
     SET;
   * `E.pop()` without arguments where E has kind SET;
-  * every call of the builtins `id(…)` / `hash(…)` (address / seed dependent numbers);
+  * every call of the builtins `id(…)` / `hash(…)` / `repr(<non-literal>)`, `key=hash|id`, and
+    `x.__hash__()` outside a `__hash__` method (address / seed dependent values);
   * the same consumers applied to an expression whose kind the scanner cannot decide (kind UNK):
     these are listed separately ("unknown" sites) and must be reviewed one by one as well.
 Kinds are inferred from syntax and annotations only (set displays / comprehensions, `set(…)`,
@@ -338,6 +339,16 @@ class Scan:
             fname = f.id if isinstance(f, ast.Name) else f.attr if isinstance(f, ast.Attribute) else None
             if isinstance(f, ast.Name) and f.id in ("id", "hash") and len(node.args) == 1:
                 self.set_sites.append((file, qual, f.id, ast.unparse(node)))
+            # repr() of an object (default reprs contain the address); string literals are fine
+            if isinstance(f, ast.Name) and f.id == "repr" and len(node.args) == 1 \
+                    and not isinstance(node.args[0], ast.Constant):
+                self.set_sites.append((file, qual, "repr", ast.unparse(node)))
+            # hash / id / __hash__ used as a value (sort key, map argument, attribute call)
+            for kw in node.keywords:
+                if kw.arg == "key" and isinstance(kw.value, ast.Name) and kw.value.id in ("hash", "id"):
+                    self.set_sites.append((file, qual, "key=" + kw.value.id, ast.unparse(node)))
+            if isinstance(f, ast.Attribute) and f.attr == "__hash__" and qual.split(".")[-1] != "__hash__":
+                self.set_sites.append((file, qual, "hash", ast.unparse(node)))
             if isinstance(f, ast.Attribute) and f.attr == "pop" and not node.args and not node.keywords:
                 k = self.kind(f.value, env)
                 # a bare local name is not part of the site's identity (renaming it is harmless)
